@@ -6014,3 +6014,89 @@ func allocAfterBound(c *Ctx) {
 	})
 	c.Floor("buffers allocated with an operand length", n, 2)
 }
+
+// ---------------------------------------------------------------------------
+// pointer-script-match (C12) - a Pointer is an offset into the script that created it. CALLA may follow it only inside
+// that very script: comparing script *hashes* is not enough, because a deployed contract runs under its contract hash,
+// which stays the same when the contract is updated - a pointer taken from version 1 and called after a self-update
+// lands at its old offset inside version 2, in the middle of an instruction, although both scripts passed the static
+// check. The CALLA arm has to fault unless a method of Pointer that reads the pointer's script field, given the
+// current context's script, agrees.
+func rulePointerScriptMatch(c *Ctx) {
+	fd := c.P.Func("pkg/vm", "VM", "execute")
+	pk := c.P.Pkg("pkg/vm/stackitem")
+	if fd == nil || pk == nil {
+		c.Lost("pointer-script-match.anchor", "VM.execute / package stackitem not found")
+		return
+	}
+	// methods of *Pointer whose body reads the script field
+	readsScript := map[string]bool{}
+	for _, m := range c.P.AllFuncDecls() {
+		if m.Pkg != pk || m.Decl.Body == nil || m.Decl.Recv == nil {
+			continue
+		}
+		if !namedTypeIsPtr(m.Obj.Type().(*types.Signature).Recv().Type(), "github.com/nspcc-dev/neo-go/pkg/vm/stackitem", "Pointer") {
+			continue
+		}
+		mf := c.P.NewFuncCFG(m)
+		ast.Inspect(m.Decl.Body, func(x ast.Node) bool {
+			if e, ok := x.(ast.Expr); ok && mf.DirectMentions(e)["pkg/vm/stackitem#script"] {
+				readsScript[FuncKey(m.Obj)] = true
+			}
+			return true
+		})
+	}
+	f := c.P.NewFuncCFG(fd)
+	info := f.Info
+	found, ok2 := false, false
+	ast.Inspect(fd.Decl.Body, func(x ast.Node) bool {
+		cc, ok := x.(*ast.CaseClause)
+		if !ok {
+			return true
+		}
+		isCalla := false
+		for _, e := range cc.List {
+			if sel, ok := ast.Unparen(e).(*ast.SelectorExpr); ok && sel.Sel.Name == "CALLA" && namedTypeIs(info.TypeOf(e), "pkg/vm/opcode", "Opcode") {
+				isCalla = true
+			}
+		}
+		if !isCalla {
+			return true
+		}
+		found = true
+		for _, st := range cc.Body {
+			is, ok := st.(*ast.IfStmt)
+			if !ok || len(is.Body.List) == 0 {
+				continue
+			}
+			// panicking body
+			pan := false
+			ast.Inspect(is.Body, func(y ast.Node) bool {
+				if call, ok := y.(*ast.CallExpr); ok && f.calleeSym(call) == "builtin.panic" {
+					pan = true
+				}
+				return true
+			})
+			if !pan {
+				continue
+			}
+			ast.Inspect(is.Cond, func(y ast.Node) bool {
+				if call, ok := y.(*ast.CallExpr); ok && readsScript[f.calleeSym(call)] && len(call.Args) == 1 {
+					if f.DirectMentions(call.Args[0])["pkg/vm#prog"] {
+						ok2 = true
+					}
+				}
+				return true
+			})
+		}
+		return false
+	})
+	switch {
+	case !found:
+		c.Lost("pointer-script-match.arm", "no CALLA arm in VM.execute")
+	case ok2:
+		c.OK("pointer-script-match", c.P.Pos(fd.Decl.Pos()), "CALLA faults unless the pointer's own script is the script of the current context")
+	default:
+		c.Fail("pointer-script-match", c.P.Pos(fd.Decl.Pos()), "CALLA accepts a pointer on the strength of its script hash alone: for a deployed contract that is the contract hash, which survives an update, so a pointer taken from the old script is followed into the new one at its old offset - an offset that need not be an instruction boundary there")
+	}
+}
